@@ -354,6 +354,42 @@ pub fn edge_variants(l: &Ledger, w: &StdWorld) -> Vec<Instruction> {
                 }
             }
         }
+        // remaining-accounts packagings of the v2 instructions (position 0 only): well-formed slice lists, lists that ask for more
+        // accounts than are attached (each slice alone would fit), duplicated and foreign slice types, empty slices — both
+        // implementations must label / refuse them identically
+        if std::ptr::eq(p, &w.positions[0]) {
+            use anchor_lang::InstructionData;
+            use whirlpool::util::{AccountsType as T, RemainingAccountsInfo, RemainingAccountsSlice};
+            let packs: Vec<(Vec<(T, u8)>, usize)> = vec![
+                (vec![(T::TransferHookA, 1)], 1),
+                (vec![(T::TransferHookA, 2), (T::TransferHookB, 1)], 3),
+                (vec![(T::TransferHookA, 2), (T::TransferHookB, 2)], 3),
+                (vec![(T::TransferHookA, 2), (T::TransferHookB, 2)], 2),
+                (vec![(T::TransferHookA, 1), (T::TransferHookB, 3)], 3),
+                (vec![(T::TransferHookA, 3)], 2),
+                (vec![(T::TransferHookA, 0), (T::TransferHookB, 2)], 2),
+                (vec![(T::TransferHookA, 1), (T::TransferHookA, 1)], 2),
+                (vec![(T::SupplementalTickArrays, 1)], 1),
+                (vec![(T::TransferHookB, 1), (T::TransferHookA, 1)], 2),
+                (vec![], 2),
+            ];
+            for (slices, extra) in packs {
+                let rai = Some(RemainingAccountsInfo { slices: slices.iter().map(|(t, n)| RemainingAccountsSlice { accounts_type: t.clone(), length: *n }).collect() });
+                let mut inc = world::ix_increase(p, &w.lp, 1_000, u64::MAX, u64::MAX, true);
+                inc.data = whirlpool::instruction::IncreaseLiquidityV2 { liquidity_amount: 1_000, token_max_a: u64::MAX, token_max_b: u64::MAX, remaining_accounts_info: rai.clone() }.data();
+                let mut dec = world::ix_decrease(p, &w.lp, 1, 0, 0, true);
+                dec.data = whirlpool::instruction::DecreaseLiquidityV2 { liquidity_amount: 1, token_min_a: 0, token_min_b: 0, remaining_accounts_info: rai }.data();
+                for ix in [&mut inc, &mut dec] {
+                    for i in 0..extra {
+                        ix.accounts.push(solana_program::instruction::AccountMeta::new_readonly(svm::keys::key(&format!("c12/extra-account/{i}")), false));
+                    }
+                }
+                v.push(inc);
+                if cur > 0 {
+                    v.push(dec);
+                }
+            }
+        }
         // wrong tick arrays: the lower/upper arrays swapped (when they differ) must fail identically
         if p.ta_lower() != p.ta_upper() {
             let mut ix = world::ix_increase(p, &w.lp, 1000, u64::MAX, u64::MAX, !v1);
